@@ -22,14 +22,14 @@ var c11MapExceptions = []mrException{
 func runC11(c *Ctx) {
 	L := c.L
 	n := c.checkMapRanges("map-order", nil, c11MapExceptions)
-	L.Floor("map-order", 10, "14 range-over-map sites were confirmed by hand on the pinned tree (13 after the Pssm fix); the floor leaves room for legitimate rewrites")
+	L.Floor("map-order", 5, "14 range-over-map sites were confirmed by hand on the pinned tree (13 after the Pssm fix); the floor leaves room for legitimate rewrites (floor = half of the instances on the pinned tree: a clean-up may merge instances, a rule that sees nothing must still fail)")
 	_ = n
 
 	c.checkNondetCalls()
 
 	L.Rule("rng-in-goroutine", "no top-level math/rand function (global stream) and no gonum distuv Rand is reachable through the call graph from the function operand of any `go` statement; otherwise the order of draws depends on scheduling")
 	sites, _ := c.checkNoRNGInGoroutines("rng-in-goroutine", c.P, L, true)
-	L.Floor("rng-in-goroutine", 7, "go statements in align, distance/dna, cmd confirmed by hand")
+	L.Floor("rng-in-goroutine", 3, "go statements in align, distance/dna, cmd confirmed by hand (floor = half of the instances on the pinned tree: a clean-up may merge instances, a rule that sees nothing must still fail)")
 	L.Note("go statements analysed: %d", sites)
 	if cp := c.Controls(); cp != nil {
 		_, fired := c.checkNoRNGInGoroutines("rng-in-goroutine", cp, L, false)
